@@ -194,7 +194,8 @@ func c15Script(stmts []string) *core.Viol {
 	text := strings.Join(stmts, "\n")
 	cs := core.Case{Kind: "script", Data: strings.Join(stmts, " ;; ")}
 	whole := c15Feed([]string{text}, false)
-	if whole.errs != "" {
+	// a script is a case when it is error-free fed one statement at a time (the reading that needs no look-ahead)
+	if one := c15Feed(stmts, true); one.errs != "" {
 		return &core.Viol{Class: "not-a-case", Case: cs}
 	}
 	n := len(stmts)
@@ -241,7 +242,7 @@ var c15ScriptStmts = func() []string {
 		}
 		out = append(out, s)
 	}
-	out = append(out, "mq = macro(x) { quote(unquote(x) * 2) }", "w = mq(v + 1)", "println(mq(3))", "// a comment", "/* block\ncomment */", "long = [\n1,\n2,\n]"[0:0]+"long = [1,\n 2]", "s2 = \"multi\nline\"", "if v > 0 {\n println(\"pos\")\n} else {\n println(\"neg\")\n}")
+	out = append(out, "mq = macro(x) { quote(unquote(x) * 2) }", "w = mq(v + 1)", "println(mq(3))", "mr = macro(y) { quote(unquote(y) + 1) }", "println(mr(4))", "// a comment", "/* block\ncomment */", "long = [\n1,\n2,\n]"[0:0]+"long = [1,\n 2]", "s2 = \"multi\nline\"", "if v > 0 {\n println(\"pos\")\n} else {\n println(\"neg\")\n}")
 	return out
 }()
 
